@@ -88,6 +88,21 @@ Alloc(as, name, tm) ==
                   /\ handles' = Append(handles, live(want))
                   /\ out' = [res |-> "live", cb |-> 0, rejected |-> FALSE]
 
+(* Register<as>(name, keys, help): the public helpers that declare a vector up front; no handle, an error is RETURNED
+   (not routed to the callback).  A later Allocate with the same name and key SET (in any order) finds the vector. *)
+Register(as, name, keys) ==
+  LET fam == Fam(as)
+      want == WantKind(as)
+      hit == {c \in cache : c.fam = fam /\ c.name = name /\ c.keys = keys}
+  IN /\ nops' = nops + 1 /\ UNCHANGED <<flavour, cbPanics, specOf, truth, series, handles>>
+     /\ IF hit # {} THEN /\ UNCHANGED <<reg, cache>>
+                          /\ out' = [res |-> (IF (CHOOSE c \in hit : TRUE).kind = want \/ DevCrossKindNilSlot THEN "ok" ELSE "err"), cb |-> 0, rejected |-> FALSE]
+        ELSE IF \E r \in reg : r.name = name
+        THEN /\ UNCHANGED <<reg, cache>> /\ out' = [res |-> "err", cb |-> 0, rejected |-> FALSE]
+        ELSE /\ reg' = reg \cup {[name |-> name, kind |-> want, keys |-> keys]}
+             /\ cache' = cache \cup {[fam |-> fam, name |-> name, keys |-> keys, kind |-> want]}
+             /\ out' = [res |-> "ok", cb |-> 0, rejected |-> FALSE]
+
 (* tally bucket of sample s for the histogram's spec: (lower, upper] with upper = first bound >= s *)
 UpperOf(spec, s) == IF \E b \in spec : b >= s THEN CHOOSE b \in spec : b >= s /\ \A b2 \in spec : b2 >= s => b <= b2 ELSE Max
 LowerOf(spec, s) == IF \E b \in spec : b < s THEN CHOOSE b \in spec : b < s /\ \A b2 \in spec : b2 < s => b >= b2 ELSE 1
@@ -115,6 +130,7 @@ Report(h, v) ==
 Next ==
   /\ nops < MaxOps
   /\ \/ \E as \in AsKinds, name \in Names, tm \in TagMaps : Alloc(as, name, tm)
+     \/ \E as \in AsKinds \ {"histogram"}, name \in Names, ks \in SUBSET Keys : Register(as, name, ks)
      \/ \E h \in 1..Len(handles) : \E v \in ReportVals : Report(h, v)
 Spec == Init /\ [][Next]_vars
 
